@@ -66,12 +66,17 @@ theorem avail_sendHeader (w : Wrap.State) (md : MD) : Wrap.avail (Wrap.sendHeade
 theorem avail_preSend (w : Wrap.State) : Wrap.avail (Wrap.sendHeaderIfNeeded w) = true :=
   avail_sendHeader w []
 
+theorem avail_xfer (c : Cfg) (w : Wrap.State) (d : Dir) (m : Nat) (reuse : Bool) :
+    Wrap.avail (Wrap.xfer c w d m reuse).1 = Wrap.avail w := by
+  obtain ⟨_, f2, _, f4, f5⟩ := Wrap.xfer_fields c w d m reuse
+  simp [Wrap.avail, f2, f4, f5]
+
 theorem closed_close (c : Cfg) (w : Wrap.State) (fin : Fin) : (Wrap.close c w fin).closed.isSome = true := by
   simp [Wrap.close]
 
-theorem go_complete (c : Cfg) (fin : Fin) (tm hdr cc : Bool) (srv : Srv) (cs : List COp) :
+theorem go_complete (c : Cfg) (fin : Fin) (reuse : Bool) (tm hdr cc : Bool) (srv : Srv) (cs : List COp) :
     ∀ w, sync tm hdr cc srv cs = true → Inv hdr srv w →
-      (go (Wrap.impl c) fin w cc srv cs).complete = true := by
+      (go (Wrap.impl c) fin reuse w cc srv cs).complete = true := by
   fun_induction sync tm hdr cc srv cs
   all_goals intro w hs hi
   case case1 tm hdr cc md ss cs ih =>
@@ -91,7 +96,7 @@ theorem go_complete (c : Cfg) (fin : Fin) (tm hdr cc : Bool) (srv : Srv) (cs : L
   case case5 tm hdr cc m ss cs ih =>
     simp only [go, Wrap.impl]
     rw [complete_cev _ _ (by simp)]
-    exact ih _ hs (fun _ => avail_preSend w)
+    exact ih _ hs (fun _ => by rw [avail_xfer]; exact avail_preSend w)
   case case6 tm hdr cc m ss cs ih =>
     obtain ⟨md, hmd⟩ := Wrap.header_of_avail (avail_preSend w)
     simp only [go, Wrap.impl, hmd]
@@ -106,9 +111,9 @@ theorem go_complete (c : Cfg) (fin : Fin) (tm hdr cc : Bool) (srv : Srv) (cs : L
     rw [complete_sev _ _ (by simp)]
     exact ih _ hs hi
   case case11 tm hdr ss m cs ih =>
-    simp only [go]
+    simp only [go, Wrap.impl]
     rw [complete_cev _ _ (by simp), complete_sev _ _ (by simp)]
-    exact ih _ hs hi
+    exact ih _ hs (fun hh => by rw [avail_xfer]; exact hi hh)
   case case12 tm hdr ss cs ih =>
     have := ih _ hs hi
     simp only [go] at this ⊢
